@@ -166,7 +166,7 @@ class ExprMixin:
             return [(st, BuiltinRef("x." + e.id))]
         if e.id in ("old", "entry", "implies", "isint", "fresh", "hashkey",
                     "same_shape", "is_none", "seq_len", "seq_at", "unchanged",
-                    "classname", "ite", "seq_eq", "hash_elems", "assume", "use_lemma"):
+                    "classname", "ite", "seq_eq", "hash_elems", "assume", "use_lemma", "intstr"):
             return [(st, BuiltinRef("spec." + e.id))]
         return [(st, self.lookup_global(e.id, env.get("__module__")))]
 
